@@ -22,3 +22,19 @@ Proof. vm_compute. reflexivity. Qed.
 (* relaxing at no place is the identity on the frozen tables *)
 Lemma relax_nil_spec : relax lib spec [] = spec.
 Proof. vm_compute. reflexivity. Qed.
+
+(* ---- the C03 direction: where the library's tables are stricter than the frozen specification's ---- *)
+Definition lib_accept_failures : list failure := Eval vm_compute in accept_failures spec lib.
+Definition spec_restricted : world := Eval vm_compute in restrict lib spec lib_accept_failures.
+
+Lemma lib_accept_failures_eq : accept_failures spec lib = lib_accept_failures.
+Proof. vm_compute. reflexivity. Qed.
+
+Lemma spec_restricted_eq : restrict lib spec (accept_failures spec lib) = spec_restricted.
+Proof. vm_compute. reflexivity. Qed.
+
+Lemma restricted_refines_lib : spec_refines spec_restricted lib = true.
+Proof. vm_compute. reflexivity. Qed.
+
+Lemma restrict_nil_spec : restrict lib spec [] = spec.
+Proof. vm_compute. reflexivity. Qed.
